@@ -52,6 +52,12 @@ def make_world():
         "dB0": numpy.array([1, 0, 1], dtype=numpy.int64),
         "dB1": numpy.array([0, 0, 1], dtype=numpy.int64),
         # a cube of each type with a DIFFERENT number of rows, for function objects that do not depend on N
+        # an extent-1 dimension (every row in category 0): with it three flat dimensions give the working shape that cA / xA get from a
+        # two-column dimension and a flat one - same shape, different split into extra axes and category axes
+        "dS0": numpy.array([0, 0, 0], dtype=numpy.int64),
+        # the dimensions of xA again, already in the narrowest unsigned dtype the cube works in (nothing to convert: a cube may use them as they are)
+        "uA0": numpy.array([[0, 1], [1, 1], [0, 0]], dtype=numpy.uint8),
+        "uA1": numpy.array([0, 1, 1], dtype=numpy.uint8),
         "dD0": numpy.array([1, 0, 1, 1, 0], dtype=numpy.int64),
         "dD1": numpy.array([0, 0, 1, 2, 2], dtype=numpy.int64),
     }
@@ -69,11 +75,13 @@ def make_world():
         "iD1": M.build_index(args["dD1"], 2),
     }
     # cC / xC: the SAME output shape as cB / xB over different data (other cells are empty): stale result buffers show up
+    idx["iS0"] = M.build_index(args["dS0"], 1)
     idx["iC0"] = M.build_index(args["dB1"], 1)
     idx["iC1"] = M.build_index(args["dB0"], 0)
     dims_lists = {"cA": [idx["iA0"], idx["iA1"]], "cB": [idx["iB0"], idx["iB1"]], "xA": [args["dA0"], args["dA1"]], "xB": [args["dB0"], args["dB1"]],
                   "cC": [idx["iC0"], idx["iC1"]], "xC": [args["dB1"], args["dB0"]],
-                  "cD": [idx["iD0"], idx["iD1"]], "xD": [args["dD0"], args["dD1"]]}
+                  "cD": [idx["iD0"], idx["iD1"]], "xD": [args["dD0"], args["dD1"]],
+                  "cS": [idx["iS0"], idx["iB0"], idx["iB1"]], "xS": [args["dS0"], args["dB0"], args["dB1"]]}
     shape = (3, 3)
     cubes = {
         "cA": ccube(dims_lists["cA"], interacting_shape=shape),
@@ -90,6 +98,9 @@ def make_world():
         # the same dimensions as cA / xA with a (never raising) interrupt callback installed: an option that is tested alone elsewhere
         "cK": ccube(dims_lists["cA"], interacting_shape=shape),
         "xK": xcube(dims_lists["xA"], interacting_shape=shape),
+        "cS": ccube(dims_lists["cS"], interacting_shape=(1, 3, 3)),
+        "xS": xcube(dims_lists["xS"], interacting_shape=(1, 3, 3)),
+        "xU": xcube([args["uA0"], args["uA1"]], interacting_shape=shape),
     }
     cubes["cK"].check_interrupt = _no_interrupt
     cubes["xK"].check_interrupt = _no_interrupt
@@ -193,8 +204,8 @@ def events(max_sel, func_subset=None):
     """All events: ('calc', cube, (func names...)) and ('short', cube, name)."""
     w = make_world()
     out = []
-    for cube in ("cA", "cB", "cC", "xA", "xB", "xC", "cK", "xK"):
-        if cube in ("cC", "xC") and max_sel > 1:
+    for cube in ("cA", "cB", "cC", "xA", "xB", "xC", "cK", "xK", "cS", "xS", "xU"):
+        if cube in ("cC", "xC", "cS", "xS", "xU") and max_sel > 1:
             continue
         if cube in ("cK", "xK") and max_sel > 2:
             continue  # the same-shape twins only join the single-function alphabet (depth 2/3 histories)
@@ -204,7 +215,7 @@ def events(max_sel, func_subset=None):
         for k in range(1, max_sel + 1):
             for sel in itertools.permutations(names, k):
                 out.append(("calc", cube, sel))
-        if cube not in ("cC", "xC"):
+        if cube not in ("cC", "xC", "cS", "xS", "xU"):
             # the SAME function object listed twice in one pass (and around another one): each position must equal the aggregate alone
             for n in names:
                 out.append(("calc", cube, (n, n)))
